@@ -50,13 +50,27 @@ Fixpoint inplace_ref (g : vec -> vec -> vec) (pc : cell) (h : heap) (cs : list c
   match cs with [] => h | c :: t => inplace_ref g pc (wr h c (g (rd h pc) (rd h c))) t end.
 
 (* ---------------------------------------------------------------- objects and worlds *)
+(* the three corner containers of a mesh: element and owner tables of face_corners, cell_corners, cell_faces *)
+Record corners := mkcorn { fce : list Z; fca : list Z; cce : list Z; cca : list Z; cfe : list Z; cfa : list Z }.
+Definition corn0 : corners := mkcorn [] [] [] [] [] [].
+Definition get_corn (c : corners) (k : nat) : list Z :=
+  match k with 0%nat => fce c | 1%nat => fca c | 2%nat => cce c | 3%nat => cca c | 4%nat => cfe c | _ => cfa c end.
 Record obj := mkobj { ocells : list cell; oedges : list (list Z); ofaces : list (list Z); occells : list (list Z);
-                      okind : Z }.   (* kind: -1 caller array, 0 point cloud, 1 polyline, 2 surface, 3 volume *)
+                      ocorn : corners; okind : Z }.   (* kind: -1 caller array, 0 point cloud, 1 polyline, 2 surface, 3 volume *)
 Record world := mkw { wmem : mem; wobjs : list obj }.
 Definition w0 : world := mkw (mkmem (PositiveMap.empty vec) 1%positive) [].
 
 Definition coords (h : heap) (o : obj) : list vec := map (rd h) (ocells o).
-Definition with_cells (o : obj) (cs : list cell) : obj := mkobj cs (oedges o) (ofaces o) (occells o) (okind o).
+Definition with_cells (o : obj) (cs : list cell) : obj := mkobj cs (oedges o) (ofaces o) (occells o) (ocorn o) (okind o).
+Definition get_elem (o : obj) (k : nat) : list (list Z) :=
+  match k with 0%nat => oedges o | 1%nat => ofaces o | _ => occells o end.
+(* mesh.copy: every container of the copy is filled from the container of the source the code names (Gen.v) *)
+Definition copy_obj (attr : bool) (so : obj) (cs : list cell) : obj :=
+  let c := ocorn so in
+  mkobj cs (get_elem so (copy_elem_src attr 0)) (get_elem so (copy_elem_src attr 1)) (get_elem so (copy_elem_src attr 2))
+        (mkcorn (get_corn c (copy_corn_src attr 0)) (get_corn c (copy_corn_src attr 1)) (get_corn c (copy_corn_src attr 2))
+                (get_corn c (copy_corn_src attr 3)) (get_corn c (copy_corn_src attr 4)) (get_corn c (copy_corn_src attr 5)))
+        (okind so).
 Fixpoint upd {A} (l : list A) (i : nat) (x : A) : list A :=
   match l, i with
   | [], _ => []
@@ -122,6 +136,24 @@ Fixpoint merge_comb (off : Z) (ins : list obj) : list (list Z) * list (list Z) *
        (if has_faces (okind o) then map (map (merge_shift_faces off n)) (ofaces o) else []) ++ f,
        (if has_cells (okind o) then map (map (merge_shift_cells off n)) (occells o) else []) ++ c)
   end.
+(* corner containers of the merged mesh: the inputs' tables, vertices / faces / cells renumbered by the running counts *)
+Definition zlen {A} (l : list A) : Z := Z.of_nat (length l).
+Fixpoint merge_corn (voff foff coff : Z) (ins : list obj) : corners :=
+  match ins with
+  | [] => corn0
+  | o :: t =>
+      let nf := if has_faces (okind o) then zlen (ofaces o) else 0%Z in
+      let nc := if has_cells (okind o) then zlen (occells o) else 0%Z in
+      let r := merge_corn (voff + nverts o) (foff + nf) (coff + nc) t in
+      let c := ocorn o in
+      let fo (b : bool) (l : list Z) := if b then l else [] in
+      mkcorn (map (Z.add voff) (fo (has_faces (okind o)) (fce c)) ++ fce r)
+             (map (Z.add foff) (fo (has_faces (okind o)) (fca c)) ++ fca r)
+             (map (Z.add voff) (fo (has_cells (okind o)) (cce c)) ++ cce r)
+             (map (Z.add coff) (fo (has_cells (okind o)) (cca c)) ++ cca r)
+             (map (Z.add foff) (fo (has_cells (okind o)) (cfe c)) ++ cfe r)
+             (map (Z.add coff) (fo (has_cells (okind o)) (cfa c)) ++ cfa r)
+  end.
 Fixpoint merge_cells (m : mem) (ins : list obj) : mem * list cell :=
   match ins with
   | [] => (m, [])
@@ -185,9 +217,9 @@ Definition vsum (vs : list vec) : vec := fold_left (vadd O) vs (vzero O).
 
 (* ---------------------------------------------------------------- operations *)
 Inductive op :=
-| ONew (pat : list sinit) (e f c : list (list Z)) (k : Z)      (* caller arrays, producers outside the anchors *)
-| OFromArrays (a : nat) (e f c : list (list Z)) (k : Z)
-| ORing (N nc : Z) (open : bool) (vs : list vec) (e f : list (list Z))
+| ONew (pat : list sinit) (e f c : list (list Z)) (cn : corners) (k : Z)      (* caller arrays, producers outside the anchors *)
+| OFromArrays (a : nat) (e f c : list (list Z)) (cn : corners) (k : Z)
+| ORing (N nc : Z) (open : bool) (vs : list vec) (e f : list (list Z)) (cn : corners)
 | OCopy (m : nat) (attr : bool)
 | OMerge (ms : list nat)
 | OTranslate (m : nat) (t : tparam)
@@ -208,27 +240,27 @@ Definition retarget (w : world) (i : nat) (o : obj) (r : mem * list cell) : worl
 Definition step (w : world) (o : op) : option world :=
   let m := wmem w in
   match o with
-  | ONew pat e f c k =>
+  | ONew pat e f c cn k =>
       match build_ext (wobjs w) m pat with
-      | Some (m1, cs) => Some (push w m1 (mkobj cs e f c k))
+      | Some (m1, cs) => Some (push w m1 (mkobj cs e f c cn k))
       | None => None
       end
-  | OFromArrays a e f c k =>
+  | OFromArrays a e f c cn k =>
       match nth_error (wobjs w) a with
       | Some ao => if is_mesh ao then None else
                    let '(m1, cs) := take (eff from_arrays_mode) m (ocells ao) in
-                   Some (push w m1 (mkobj cs e f c k))
+                   Some (push w m1 (mkobj cs e f c cn k))
       | None => None
       end
-  | ORing N nc open vs e f =>
+  | ORing N nc open vs e f cn =>
       match ring_cells m N nc open vs with
-      | Some (m1, cs) => Some (push w m1 (mkobj cs e f [] 2))
+      | Some (m1, cs) => Some (push w m1 (mkobj cs e f [] cn 2))
       | None => None
       end
   | OCopy i attr =>
       match get_mesh w i with
       | Some so => let '(m1, cs) := take (if attr then copy_mode_with_attributes else copy_mode_data_only) m (ocells so) in
-                   Some (push w m1 (with_cells so cs))
+                   Some (push w m1 (copy_obj attr so cs))
       | None => None
       end
   | OMerge ms =>
@@ -236,7 +268,7 @@ Definition step (w : world) (o : op) : option world :=
       | _ :: _, Some ins =>
           let '(m1, cs) := merge_cells m ins in
           let '(e, f, c) := merge_comb merge_offset0 ins in
-          Some (push w m1 (mkobj cs e f c (kind_of_data e f c)))
+          Some (push w m1 (mkobj cs e f c (merge_corn 0 0 0 ins) (kind_of_data e f c)))
       | _, _ => None
       end
   | OTranslate i t =>
